@@ -260,7 +260,14 @@ func check(c Case) (kind, what string) {
 			p, err = md.ICCProfile()
 		})
 	case "jpeg":
-		segs := append([]build.Seg{{Marker: 0xE0, Data: []byte("JFIF\x00\x01\x01\x00\x00\x01\x00\x01\x00\x00")}}, build.ICCSegs(prof, []int{len(prof)/2 + 1})...)
+		sizes := []int{len(prof)/2 + 1}
+		if len(prof) > 100000 { // large profiles need more than two chunks (a chunk holds at most 65519 bytes)
+			sizes = nil
+			for r := len(prof); r > 60000; r -= 60000 {
+				sizes = append(sizes, 60000)
+			}
+		}
+		segs := append([]build.Seg{{Marker: 0xE0, Data: []byte("JFIF\x00\x01\x01\x00\x00\x01\x00\x01\x00\x00")}}, build.ICCSegs(prof, sizes)...)
 		segs = append(segs, build.Seg{Marker: 0xC0, Data: build.SOF(8, 2, 3, [][3]byte{{1, 0x11, 0}})})
 		file, _ := build.JPEG{Segs: segs, SOS: []byte{1, 1, 0, 0, 63, 0}, Entropy: []byte{1, 2, 3}}.Bytes()
 		pn, msg = ev.Guard(func() {
@@ -430,6 +437,13 @@ func gen(rt *rapid.T) Case {
 	if rapid.IntRange(0, 3).Draw(rt, "fewtags") > 0 && n > 6 {
 		n = n % 7
 	}
+	if rapid.IntRange(0, 99).Draw(rt, "manytags") == 0 {
+		counts := []int{255, 256, 257, 300} // counts around the sizes of bytes and small tables
+		if ev.Thorough() {
+			counts = append(counts, 1000, 4097)
+		}
+		n = rapid.SampledFrom(counts).Draw(rt, "tagcount")
+	}
 	c.DescKind = rapid.SampledFrom([]string{"v2", "v4", "v4", "v4", ""}).Draw(rt, "desckind")
 	if n == 0 {
 		c.DescKind = ""
@@ -523,7 +537,7 @@ func gen(rt *rapid.T) Case {
 			}
 		}
 	case "v4":
-		nr := rapid.SampledFrom([]int{1, 1, 2, 2, 3, 5, 40}).Draw(rt, "nrecsmax")
+		nr := rapid.SampledFrom([]int{1, 1, 2, 2, 3, 5, 40, 40, 300}).Draw(rt, "nrecsmax")
 		nr = rapid.IntRange(1, nr).Draw(rt, "nrecs")
 		for i := 0; i < nr; i++ {
 			r := Rec{Lang: rapid.SampledFrom(langs).Draw(rt, "lang"), Country: rapid.SampledFrom([]string{"US", "GB", "DE", "\x00\x00", "JP"}).Draw(rt, "country"), Share: -1}
